@@ -5,7 +5,9 @@ use ureq_proto::client::flow::{Flow, RecvBodyResult, RecvResponseResult, Redirec
 use ureq_proto::client::flow::state::Redirect;
 use ureq_proto::http::Method;
 
+use crate::drive::exchange::{check_against_truth, run_exchange, AwaitMode, ExchangeSpec, Outcome, ReqConn, ReqFraming, RespSpec, Sched, ServerPre, Terminal};
 use crate::drive::recv::{flow_recv, METHODS};
+use crate::model::head::RespHead;
 use crate::infra::runner::{radix, EnumDef, PropDef, Tier};
 use crate::infra::stats::Stats;
 use crate::infra::tape::Tape;
@@ -46,15 +48,50 @@ fn exec(t: &mut Tape, st: &mut Stats) -> Result<(), String> {
     let policy = if t.below(2) == 0 { RedirectAuthHeaders::Never } else { RedirectAuthHeaders::SameHost };
     let with_body = t.below(2) == 1;
     let with_location = t.below(2) == 0;
+    // request path: 0 plain; 1 send-body-despite-method (methods that take none); 2 Expect: 100-continue answered by this
+    // very 3xx while awaiting (the body is never sent)
+    let path = t.below(3);
     let method = METHODS[m].clone();
-    st.describe(|| json!({"method": method.as_str(), "status": status, "policy": format!("{:?}", policy), "with_body": with_body}));
+    st.describe(|| json!({"method": method.as_str(), "status": status, "policy": format!("{:?}", policy), "with_body": with_body, "with_location": with_location, "path": path}));
     st.evals(1);
-    let loc = if with_location { "Location: /next?x=1\r\n" } else { "" };
-    let head = format!("HTTP/1.1 {} R\r\n{}Content-Length: {}\r\n\r\n", status, loc, if with_body { 3 } else { 0 });
-    // HEAD responses and 304 carry no body bytes whatever the header says
-    let body: &[u8] = if with_body && method != Method::HEAD && status != 304 { b"abc" } else { b"" };
-    let what = format!("{} {} {:?} body={} location={}", method, status, policy, with_body, with_location);
-    let landed = land(&method, head.as_bytes(), body).map_err(|e| format!("{}: {}", what, e))?;
+    let takes_body = crate::drive::recv::needs_body(&method);
+    if path == 1 && takes_body {
+        st.class("skipped_despite_on_body_method");
+        return Ok(());
+    }
+    let despite = path == 1 || (path == 2 && !takes_body);
+    let nobody = crate::drive::exgen::no_body_clause(&method, status);
+    let mut fields = vec![crate::model::head::Field::new("X-A", "1")];
+    if with_location {
+        fields.push(crate::model::head::Field::new("Location", "/next?x=1"));
+    }
+    fields.push(crate::model::head::Field::new("Content-Length", if with_body { "3" } else { "0" }));
+    let body: Vec<u8> = if with_body && !nobody { b"abc".to_vec() } else { vec![] };
+    let spec = ExchangeSpec {
+        method: method.clone(),
+        req_v10: false,
+        uri: "http://h.test/p".into(),
+        req_conn: ReqConn::Absent,
+        expect: path == 2,
+        despite,
+        req_framing: ReqFraming::Auto,
+        extra_headers: vec![("authorization".into(), "secret".into()), ("cookie".into(), "a=b".into())],
+        body: b"req".to_vec(),
+        await_mode: AwaitMode::Look,
+        server_pre: if path == 2 { ServerPre::Refuse } else { ServerPre::Silent },
+        resp: RespSpec { head: RespHead { v11: true, status, reason: Some(b"R".to_vec()), fields }, body_wire: body.clone(), payload: body, close_delimited: false },
+    };
+    let what = format!("{} {} {:?} body={} location={} path={}", method, status, policy, with_body, with_location, ["plain", "despite-method", "expect-refused"][path]);
+    let stream = spec.stream();
+    let (obs, term) = match run_exchange(&spec, None, &stream, &mut Sched::canonical()).map_err(|e| format!("{}: {}", what, e))? {
+        Outcome::Done(o, t) => (o, t),
+        Outcome::Premature(_) => return Err("harness: premature".into()),
+    };
+    check_against_truth(&spec, &obs, true, stream.len()).map_err(|e| format!("{}: {}", what, e))?;
+    let landed = match term {
+        Terminal::Redirect(r) => Landed::Redirect(r),
+        Terminal::Cleanup(_) => Landed::Cleanup,
+    };
     let mut red = match landed {
         Landed::Cleanup => {
             if status != 304 {
@@ -125,16 +162,16 @@ fn exec(t: &mut Tape, st: &mut Stats) -> Result<(), String> {
     Ok(())
 }
 
-const BASES: [u64; 5] = [9, 100, 2, 2, 2];
+const BASES: [u64; 6] = [9, 100, 2, 2, 2, 3];
 
 pub static DEF: PropDef = PropDef {
     id: "C15",
-    rule: "exhaustive enumeration: 9 standard methods x every status 300..399 x {Never, SameHost} x response {with, without} body x {with, without} Location = 7200 \
-cells; each drives a Flow through the response (and its body) and checks: Redirect entered <=> status != 304, status() equals the \
+    rule: "exhaustive enumeration: 9 standard methods x every status 300..399 x {Never, SameHost} x response {with, without} body x {with, without} Location x request path {plain, send-body-despite-method, Expect: 100-continue refused by this very response} = 21600 \
+cells (despite on body methods skipped); each drives a Flow through the response (and its body) and checks: Redirect entered <=> status != 304, status() equals the \
 code, as_new_flow: 307/308 => None for POST/PUT/PATCH/DELETE else same method; other 3xx => HEAD stays HEAD, GET stays GET, others \
 become GET; the new flow writes a head carrying that method. non-trivial = status outside {301,302,307,308} or method outside {GET, \
 POST}; distinct by enumeration index.",
-    assumptions: &["request bodies are empty (content-length: 0) for POST/PUT/PATCH"],
+    assumptions: &["the method table depends on the method only: it must hold whether or not a body was due or sent"],
     exec,
     enums: &[EnumDef {
         name: "table",
